@@ -39,7 +39,7 @@ def crates_of(diff):
 def new_tests(diff):
     names = []
     for line in open(diff).read().splitlines():
-        m = re.match(r"^\+\s*(?:pub\s+)?(?:async\s+)?fn\s+(test_\w+|\w+_test\w*|\w*demo\w*|\w*seed\w*)\s*\(", line)
+        m = re.match(r"^\+\s*(?:pub(?:\([a-z]+\))?\s+)?(?:async\s+)?fn\s+(\w+)\s*[(<]", line)
         if m:
             names.append(m.group(1))
     return names
